@@ -233,9 +233,31 @@ pub fn gen_trees(ctx: &Ctx, pid: &str) -> Report {
         let t = ts.get(i);
         writeln!(f, "{}", json!({"k": "tree", "b": t.hex(), "h": hx(&crate::refsha::tree_hash(&t))})).unwrap();
     }
+    // every small-integer boundary (2^k - 1, 2^k, 2^k + 1 and negatives, k <= 34) as an atom, in a pair and twice in a
+    // list: atoms whose in-place / heap form and byte length change (C27, C28, C22 python arms)
+    let mut extra = 0u64;
+    if pid != "C32" {
+        let mut vals: Vec<i128> = vec![];
+        for k in 0..=34u32 {
+            for d in [-1i128, 0, 1] {
+                vals.push((1i128 << k) + d);
+                vals.push(-((1i128 << k) + d));
+            }
+        }
+        vals.sort();
+        vals.dedup();
+        for v in vals {
+            let at = crate::tree::int_atom(v);
+            for t in [at.clone(), crate::tree::cons(at.clone(), atom(&[1])), crate::tree::list(&[at.clone(), atom(b"aaaa"), at.clone()])] {
+                writeln!(f, "{}", json!({"k": "tree", "b": t.hex(), "h": hx(&crate::refsha::tree_hash(&t))})).unwrap();
+                extra += 1;
+            }
+        }
+    }
     f.flush().unwrap();
     rep.note("cases_file", json!(path));
-    rep.evaluations = ts.total;
+    rep.note("boundary_integer_trees", json!(extra));
+    rep.evaluations = ts.total + extra;
     rep.states = ts.total;
     rep.transitions = ts.total;
     rep.rule = "inputs generated by the harness (see PYTHON LEG)".into();
